@@ -261,7 +261,7 @@ func (s *UDPSock) ReadFrom(p []byte) (int, net.Addr, error) {
 }
 
 func (s *UDPSock) WriteTo(p []byte, addr net.Addr) (int, error) {
-	s.N.K.Yield("sock:"+s.Role+":WriteTo", s.Info.Addr)
+	s.N.K.YieldT("sock:"+s.Role+":WriteTo", s.Info.Addr, fmt.Sprintf("%016x", HashStr(string(p))))
 	ua, ok := addr.(*net.UDPAddr)
 	if !ok {
 		if ta, ok2 := addr.(*net.TCPAddr); ok2 {
@@ -796,7 +796,7 @@ func (c *TCPConn) read(p []byte) (int, error) {
 func (c *TCPConn) Write(p []byte) (int, error) {
 	scripted := c.isScripted()
 	if !scripted {
-		c.N.K.Yield("sock:"+c.Role+":Write", c.Name)
+		c.N.K.YieldT("sock:"+c.Role+":Write", c.Name, fmt.Sprintf("%016x", HashStr(string(p))))
 		if do, ok := c.N.ioFault(c.Role, "Write"); ok && do == "error" {
 			return 0, errInjected
 		}
